@@ -7,6 +7,7 @@ config cases (given as a list `cases`; the code only asks membership) and every 
 element (`hj`), which `pathJoin_ignores_empty` proves of the model of `path.Join` the driver runs.
 -/
 import ConfModel.Lemmas.Library
+import ConfModel.Lemmas.LibraryAccept
 namespace ConfModel.Props.C07
 open ConfModel.Config ConfModel.Library
 
@@ -136,41 +137,51 @@ theorem bucket_eq_filter (lib : List Perm) (b : ServerKey × List Perm) (hb : b 
 
 
 
-/-- An accepted input is well-formed in every respect `WellFormed` lists except that relevant
-lists may repeat a value no case meets: suites named (distinctly) and non-empty, no suite taking
-part misconfigured, tests named / typed / with service and method given together wherever the
-suite meets a case, no two permutations with the same name.
-(Full statement not proved: `WellFormed join suites cases mode ∧ specList join suites cases mode ≠ []
-→ ∃ lib, newLibrary join suites (inSet cases) mode = .ok lib`, i.e. that `WellFormed` is also
-sufficient for acceptance; the traversal orders of `newLibrary` and `specList` differ, and the
-permutation argument relating them is missing. The correspondence run checks this direction on
-every well-formed input it generates.) -/
-theorem accepted_wellformed_partial (join : List String → String) (hj : ∀ l, join ("" :: l) = join l)
-    (suites : List Suite) (cases : List Case) (mode : Mode) (lib : List Perm)
+/-- **Sufficiency of `WellFormed`.** Well-formed suite definitions that specify at least one
+permutation are ACCEPTED, and the returned library is, as a set, the comprehension `specList`
+(with pairwise different names, so it has exactly as many entries). The proof relates the two
+traversal orders — the nested loops of `expandSuite` over the suite's relevant lists against the
+comprehension over the given cases — by counting how often a case is looked up
+(`count_suiteCases`). -/
+theorem wellformed_accepted (join : List String → String) (hj : ∀ l, join ("" :: l) = join l)
+    (suites : List Suite) (cases : List Case) (mode : Mode)
+    (hwf : WellFormed join suites cases mode) (hne : specList join suites cases mode ≠ []) :
+    ∃ lib, newLibrary join suites (inSet cases) mode = .ok lib ∧
+      (∀ q, q ∈ lib ↔ q ∈ specList join suites cases mode) ∧
+      (lib.map (·.fullName)).Nodup ∧ lib.length = (specList join suites cases mode).length := by
+  have h := wellFormed_accepts join hj suites cases mode hwf hne
+  refine ⟨_, h, fun q => library_mem_iff join hj suites cases mode _ h q,
+    (newLibrary_ok join suites _ mode _ h).2.1, ?_⟩
+  have h1 := nodup_of_nodup_map _ _ (newLibrary_ok join suites _ mode _ h).2.1
+  have h2 := nodup_of_nodup_map _ _ hwf.2.2.2.2
+  exact Nat.le_antisymm
+    (List.Nodup.length_le_of_subset h1 fun q hq => (library_mem_iff join hj suites cases mode _ h q).1 hq)
+    (List.Nodup.length_le_of_subset h2 fun q hq => (library_mem_iff join hj suites cases mode _ h q).2 hq)
+
+/-- **Necessity of `WellFormed`.** An accepted input is well-formed (the config cases being listed
+without repetition in `cases`; the code only uses membership) and specifies a permutation. -/
+theorem accepted_wellformed (join : List String → String) (hj : ∀ l, join ("" :: l) = join l)
+    (suites : List Suite) (cases : List Case) (mode : Mode) (hc : cases.Nodup) (lib : List Perm)
     (h : newLibrary join suites (inSet cases) mode = .ok lib) :
-    (∀ s ∈ suites, s.name ≠ "" ∧ s.tests ≠ []) ∧
-    (suites.map (·.name)).Nodup ∧
-    (∀ s ∈ suites, ModeAdmits s mode → ¬ Misconfigured s) ∧
-    (∀ s ∈ suites, ∀ c ∈ cases, Admits s mode c →
-      ∀ t ∈ s.tests, t.name ≠ "" ∧ t.st ≠ .unspec ∧ (t.st = c.s → ServiceMethodOk t)) ∧
-    (lib.map (·.fullName)).Nodup ∧
-    specList join suites cases mode ≠ [] := by
-  obtain ⟨_, b, c, d, e, f⟩ := newLibrary_ok join suites _ mode lib h
-  refine ⟨d, e, ?_, ?_, b, ?_⟩
-  · intro s hs hm hx
-    have := (f s hs hm).1
-    rw [(misconfigured_iff s).2 hx] at this
-    cases this
-  · intro s hs c' hc ha
-    obtain ⟨hm, hc1⟩ := (admits_iff s mode c').1 ha
-    exact (f s hs hm).2 c' hc1 (by simpa [inSet] using hc)
-  · intro hx
-    cases lib with
-    | nil => exact c rfl
-    | cons q _ =>
-      have := (library_eq_spec join hj suites cases mode _ h q).1 (by simp)
-      rw [hx] at this
-      simp at this
+    WellFormed join suites cases mode ∧ specList join suites cases mode ≠ [] :=
+  accepted_wellFormed join hj suites cases mode hc lib h
+
+/-- **`WellFormed` is exactly what `newTestCaseLibrary` accepts**: for a slice of config cases
+(repetitions allowed — the code builds a set) whose distinct members are `cases`, the expansion
+returns a library iff the suites are well-formed for `cases` and specify at least one permutation.
+Together with `library_eq_spec` the result is then exactly the specification. -/
+theorem newLibrary_accepts_iff (join : List String → String) (hj : ∀ l, join ("" :: l) = join l)
+    (suites : List Suite) (slice cases : List Case) (mode : Mode)
+    (hset : ∀ c, c ∈ slice ↔ c ∈ cases) (hnd : cases.Nodup) :
+    (∃ lib, newLibrary join suites (inSet slice) mode = .ok lib) ↔
+      (WellFormed join suites cases mode ∧ specList join suites cases mode ≠ []) := by
+  have e : inSet slice = inSet cases := by funext c; unfold inSet; simp [hset c]
+  rw [e]
+  constructor
+  · rintro ⟨lib, h⟩; exact accepted_wellformed join hj suites cases mode hnd lib h
+  · rintro ⟨hwf, hne⟩
+    obtain ⟨lib, h, _⟩ := wellformed_accepted join hj suites cases mode hwf hne
+    exact ⟨lib, h⟩
 
 /-- `allPermutations(client, server)` returns the library plus, for each gRPC reference peer in
 use, the applicable permutations under a name with the peer marker inserted before the test's
@@ -222,6 +233,23 @@ example : ((newLibrary simpleJoin [exampleSuite] (inSet exampleCases) .client).t
     some ["Basic/HTTPVersion:2/TLS:true/unary/ok", "Basic/HTTPVersion:1/TLS:false/unary/ok"] := by
   decide
 
-example : WellFormed simpleJoin [exampleSuite] exampleCases .client := by decide
+example : WellFormed simpleJoin [exampleSuite] exampleCases .client ∧
+    specList simpleJoin [exampleSuite] exampleCases .client ≠ [] ∧ exampleCases.Nodup := by decide
+
+/-! why `WellFormed` has the `NoRepeat` clause: a relevant list that names the value of a case
+carrying a permutation twice makes the code look the case up twice, and the second insertion is
+rejected as a duplicate definition; a repeated value that no such case has is harmless -/
+
+def repeatSuite : Suite := { exampleSuite with protocols := [.connect, .grpc, .grpc] }
+
+/-- the error of a rejected expansion -/
+def errOf {α} : Except LibErr α → Option LibErr | .error e => some e | .ok _ => none
+
+example : errOf (newLibrary simpleJoin [repeatSuite] (inSet exampleCases) .client) =
+    some (.duplicateName "Basic/HTTPVersion:2/Protocol:PROTOCOL_GRPC/TLS:true/unary/ok") ∧
+    ¬ WellFormed simpleJoin [repeatSuite] exampleCases .client := by decide
+
+example : (newLibrary simpleJoin [repeatSuite] (inSet (exampleCases.take 2)) .client).toOption.isSome = true ∧
+    WellFormed simpleJoin [repeatSuite] (exampleCases.take 2) .client := by decide
 
 end ConfModel.Props.C07
